@@ -27,6 +27,10 @@ def make(tmpl, opname, attr, conform, inplace):
                     assume(bool(xset))
                 if opname in ("transform", "transform2"):
                     assume(bool(xset))
+                if opname in ("transform_identity_kw", "transform_other_kw"):
+                    assume(bool(xset))
+                P["other"] = build_k1(NS, P, True)
+                s_other = snap(P["other"])
                 op = k1_ops(opname, attr, P, inplace, conform)
             elif tmpl == "K2":
                 assume(len(e) == 2)
@@ -40,12 +44,16 @@ def make(tmpl, opname, attr, conform, inplace):
                 o = build_k3(NS, P, bool(xset))
                 op = k3_ops(NS, opname, attr, P, inplace)
             s0_ = snap(o)
+            if tmpl != "K1":
+                s_other = None
             try:
                 r, exc = op.call(o), None
             except Violation:
                 raise
             except Exception as ex:
                 r, exc = None, ex
+            if s_other is not None and fam == "frozen":
+                check(same(snap(P["other"]), s_other), "an instance of a frozen spec class never changes observably (a pre-existing instance returned by a transform)", f"C07/{tmpl}/{opname}/other-frozen-instance-changed", lambda: f"{describe(s_other)} -> {describe(snap(P['other']))}")
             res.append((o, s0_, r, exc, op))
         (f, sf, rf, ef, opf), (t, st, rt, et, opt_) = res
         tag = f"C07/{tmpl}/{opname}" + (f".{attr}" if attr else "") + (f"/{opf.note}" if opf.note else "")
